@@ -19,9 +19,6 @@ fn run_history(prop: &str, input: &T) -> T {
     let mut w = World::new(&mut rng, flags);
     w.tamper = matches!(prop, "C03" | "C06");
     w.dry = prop == "C45";
-    if flags & world::F_RELAYER != 0 {
-        w.init_relayer(&mut rng);
-    }
 
     // plans are generated block by block, but the first block's transactions exist before
     // the genesis dump so that a colliding genesis coin can be planted
@@ -104,21 +101,18 @@ fn pick_price(rng: &mut Rng, flags: u64) -> u64 {
     *rng.pick(&[0u64, 0, 1, 1, 1, 2, 3, 7, 1000])
 }
 
-fn gen(prop: &str, rng: &mut Rng, n: u64, tier: &str) -> Vec<T> {
+fn gen(_prop: &str, rng: &mut Rng, n: u64, tier: &str) -> Vec<T> {
     let mut cases = vec![];
     let max_blocks = if tier == "thorough" { 6 } else { 4 };
     for k in 0..n {
-        let flags = if prop == "C05" {
-            world::F_RELAYER | if k % 5 == 4 { world::F_TINYGAS } else { 0 }
-        } else {
-            match k % 8 {
+        let flags = match k % 8 {
             0 | 1 | 2 => 0,
             3 => world::F_TINYGAS,
             4 => world::F_BADRECIPIENT,
             5 => world::F_TINYSIZE,
             6 => world::F_COLLIDE,
             _ => world::F_HUGEFEE,
-        }};
+        };
         cases.push(T::l(vec![
             T::n(rng.next() >> 16),
             T::n(rng.range(1, max_blocks)),
